@@ -100,6 +100,52 @@ def run(ctx):
     run_histories_fmt(ot, hs, ctx)
     streams.append(ot)
 
+    # a NAKed frame contributes nothing - not even to the choice of the schemas: the first frame of a transfer arrives
+    # damaged such that it names another analyser (or none), is NAKed and retransmitted; what is delivered as json is
+    # what the undamaged transfer delivers
+    dh = Stream("damaged-header-names-another-model")
+    from harness.props import C17
+    from harness import schemaio, impl
+    specs = {}
+    for module, letter, spec in schemaio.record_specs():
+        specs.setdefault(module, {})[letter] = spec
+    mods = [m for m in specs if C17.hub_header(m) is not None]
+    for _ in range(400 if ctx.thorough else 60):
+        m_a = r.choice(mods)
+        m_b = r.choice([m for m in mods + ["generic"] if m != m_a])
+        good = gens.frame(1, C17.hub_header(m_a).encode("latin-1"), True)
+        other = C17.hub_header(m_b if m_b != "generic" else None)
+        bad = gens.frame(1, other.encode("latin-1"), True)
+        # (damaged: the checksum characters are those of the good frame, or one of them is changed)
+        bad = bad[:-4] + (good[-4:-2] if good[-4:-2] != bad[-4:-2] else bytes([bad[-4] ^ 1, bad[-3]])) + bad[-2:]
+        body = []
+        for k, l in enumerate([x for x in ("P", "O", "R", "L") if x in specs[m_a]]):
+            raw = schemaio.gen_record(r, specs[m_a][l], fill=0.6)[0]
+            body.append(gens.frame(2 + k, raw, True))
+        clean = [("d", gens.ENQ), ("d", good)] + [("d", f) for f in body] + [("d", gens.EOT)]
+        dirty = [("d", gens.ENQ), ("d", bad), ("d", good)] + [("d", f) for f in body] + [("d", gens.EOT)]
+        outs = []
+        for evs in (clean, dirty):
+            c = impl.Conn(fmt="json")
+            got = []
+            for ev in evs:
+                ob = c.event(ev)
+                got.append((ev[1][:1], ob["writes"], ob["exc"], [x if isinstance(x, str) else x.decode("latin-1") for x in ob["delivered"]]))
+            outs.append(got)
+        case = {"named": m_a, "damaged_frame_names": m_b, "events": [gens.ev_hex(e) for e in dirty]}
+        dh.case(case)
+        nak = outs[1][1][1]
+        if nak != [b"\x15"]:
+            dh.fail(case, "the damaged first frame is answered %r, expected NAK" % (nak,), "damaged-header/reply")
+            continue
+        d_clean = outs[0][-1][3]
+        d_dirty = outs[1][-1][3]
+        if len(d_clean) != len(d_dirty) or any(not oracles.json_equal_mod_now(a, b) for a, b in zip(d_clean, d_dirty)):
+            dh.fail(dict(case, clean=repr(d_clean)[:300], with_damaged_frame=repr(d_dirty)[:300]),
+                    "the transfer whose first frame arrived damaged (naming %s) and was retransmitted is delivered differently "
+                    "from the undamaged transfer" % m_b, "damaged-header/delivery")
+    streams.append(dh)
+
     # the rule does not wear off: damaged frames after more than a thousand accepted messages of one transfer
     lg = Stream("damage-late-in-a-long-transfer")
     hs = []
